@@ -482,6 +482,41 @@ def push_order_level(res, tier, seed):
             p2 = copy.deepcopy(prog)
             p2["push"] = [list(x) for x in perm]
             runs.append((p2, cfg, f"C12-go{k}p{pi}"))
+    # a function and a module with the SAME name as siblings (legal Rust): the module is a
+    # bench_group with options and holds several benchmarks; the function is pushed first / last
+    for k in range({"quick": 10, "thorough": 80}[tier]):
+        line = [0]
+        def loc2():
+            line[0] += rnd.randint(2, 7)
+            return {"file": "src/a.rs", "line": line[0], "col": 1}
+        nm = rnd.choice(["alpha", "beta_long_name", "m2"])
+        gname = rnd.choice([nm, nm, "Renamed"])
+        groups = [{"mods": ["prog"], "raw": nm, "name": gname, **loc2(),
+                   "opts": rnd.choice([{"ignore": True}, {"sample_count": 1, "sample_size": 2}, {"ignore": True, "sample_count": 2}]),
+                   "has_opts": True}]
+        benches = [{"mods": ["prog"], "raw": nm, "name": nm, **loc2(), "kind": "plain",
+                    "opts": {"sample_count": 1, "sample_size": 1}, "has_opts": True, "cost": 100}]
+        for j in range(rnd.choice([2, 3])):
+            benches.append({"mods": ["prog", nm], "raw": f"inner{j}", "name": f"inner{j}", **loc2(), "kind": "plain",
+                            "opts": {}, "has_opts": False, "cost": 100})
+        if rnd.random() < 0.5:
+            benches.append({"mods": ["prog", nm, "deep"], "raw": "leaf", "name": "leaf", **loc2(), "kind": "plain",
+                            "opts": {}, "has_opts": False, "cost": 100})
+        others = [["b", i] for i in range(1, len(benches))] + [["g", 0]]
+        prog = {"id": f"sn{k}", "crate": "prog", "clock": {"start": 1000, "read_step": 0, "precision": 1},
+                "benches": benches, "groups": groups, "ginst": [], "push": [], "builder": [], "entry": "main"}
+        # (the function must stay a leaf row: with several thread counts it would have rows below it
+        # like the module of the same name, and rows are told apart by path and "has rows below")
+        for _ in range(50):
+            cfg = progs.gen_config(rnd, prog, action=rnd.choice(["test", "list", "list_terse"]), paths=[], nf=0)
+            if not any("threads" in cfg[k] for k in ("src_cli", "src_env", "src_before", "src_after")):
+                break
+        for pi in range(3):
+            rnd.shuffle(others)
+            p2 = copy.deepcopy(prog)
+            p2["push"] = [list(x) for x in ([["b", 0]] + others if pi == 0 else others + [["b", 0]] if pi == 1
+                                            else others[:1] + [["b", 0]] + others[1:])]
+            runs.append((p2, cfg, f"C12-sn{k}p{pi}"))
     by_name = {name: (prog, cfg) for prog, cfg, name in runs}
     path, recs = check_runner.execute(runs, "C12.order")
     res.extra["push_order_level"] = {"runs": len(runs), "note": "random programs in 3 orders each + generic-only bench_group modules in up to 6 orders each"}
